@@ -460,6 +460,24 @@ def expand_site(prog, fn, bi):
             finish(bn, use(args[1]))
             finish(b2, use(mv(r)))
         return True
+    if adt == OPT and meth == 'filter' and len(args) == 2:
+        # opt.filter(pred) = match opt { Some(x) if pred(&x) => Some(x), _ => None }
+        fop = args[1]
+        bn, bs = start()
+        p = B.local(pty0)
+        B.assign(bs, pl(p), use({'m': some_p(pty0)}))
+        pr = B.local('&' + pty0)
+        B.assign(bs, pl(pr), {'k': 'ref', 'mut': False, 'p': pl(p)})
+        b2 = B.block()
+        r = emit_call(B, bs, fop, [mv(pr)], 'bool', b2)
+        if r is None:
+            return undo()
+        bt, bf = B.block(), B.block()
+        fn.blocks[b2]['t'] = {'k': 'switch', 'd': mv(r), 'dty': 'bool', 'ts': [['0', bf]], 'o': bt, 'syn': True}
+        finish(bn, agg(OPT, 'None', 0, []))
+        finish(bf, agg(OPT, 'None', 0, []))
+        finish(bt, agg(OPT, 'Some', 1, [mv(p)]))
+        return True
     if adt == OPT and meth in ('unwrap_or_else', 'or_else', 'ok_or_else') and len(args) == 2:
         fop = args[1]
         rty = closure_ret_ty(prog, fn, fop, dty)
